@@ -77,7 +77,8 @@ def render_iso(case):
 digits = st.text('0123456789', min_size=1, max_size=4)
 intpart = st.one_of(
     st.integers(0, 400).map(str), digits, st.sampled_from(['0', '00', '59', '60', '61', '72', '1000']))
-fracpart = st.text('0123456789', min_size=1, max_size=6)
+fracpart = st.one_of(st.text('0123456789', min_size=1, max_size=6), st.text('0123456789', min_size=1, max_size=6),
+                     st.text('0123456789', min_size=7, max_size=10))
 ws = st.sampled_from(['', '', '', ' ', '  ', '\t'])
 
 
@@ -123,9 +124,11 @@ some_int = st.one_of(st.integers(0, 10 ** 7), boundary_ints)
 
 @st.composite
 def decimal_value(draw):
-    """[integer part, decimals] -> a float with 0..6 decimals."""
+    """[integer part, decimals] -> a float with 0..6 (sometimes up to 9) decimals."""
     ip = draw(some_int)
-    nd = draw(st.integers(0, 6))
+    nd = draw(st.one_of(st.integers(0, 6), st.integers(0, 6), st.integers(7, 9)))
+    if nd > 6:
+        ip = ip % 100000        # keep nine decimals within the resolution of a float
     frac = draw(st.integers(0, 10 ** nd - 1)) if nd else 0
     if draw(st.booleans()):
         frac = draw(st.sampled_from([0, 10 ** nd - 1, (10 ** nd) // 2, max(0, (10 ** nd) // 2 - 1)])) if nd else 0
@@ -143,7 +146,7 @@ timestr_cases = st.one_of(
     some_int.map(lambda n: {'k': 'timestr', 'n': n, 'sep': ''}),
     st.tuples(some_int, st.sampled_from(['', ' ', '  '])).map(
         lambda t: {'k': 'timestr', 'n': t[0], 'sep': t[1]}),
-    st.tuples(decimal_value(), st.integers(0, 6), st.sampled_from(['', ' '])).map(
+    st.tuples(decimal_value(), st.one_of(st.integers(0, 6), st.integers(0, 9)), st.sampled_from(['', ' '])).map(
         lambda t: {'k': 'timestrf', 'v': t[0], 'prec': t[1], 'sep': t[2]}),
 )
 approx_cases = st.one_of(
